@@ -46,7 +46,7 @@ def gen_store(ctx: Ctx) -> tuple[list[dict[str, Any]], list[tuple[str, str]]]:
             n = r.choice([1, 2, 3, 5])
             ids = [f"s{k + i}" for i in range(n)]
             for i in range(n):
-                parent = None if i == 0 else ids[r.randrange(0, i)]
+                parent = (None if r.random() < 0.7 else "") if i == 0 else ids[r.randrange(0, i)]
                 events.append(sl.ev(name, jid, r.choice("ABC"), ids[i], 100 + k, 200 + k, parent, app=f"app{k % 3}"))
                 k += 1
             k += n
